@@ -170,3 +170,33 @@ func ZZ_C11_UpdateRelease() {
 		zzFollowUp(p, zzSupi)
 	}
 }
+
+// C11 (recharge): a recharge notification for any rating group (used or not
+// yet used by the subscriber) or for an unknown subscriber leaves no lock
+// held, and the subscriber's next requests are answered.
+//
+//gosx:property=C11 tier=quick unwind=40 timeout=30000
+func ZZ_C11_RechargeThenRequest() {
+	p := zzSetup()
+	zzAccount(zzSupi, 1, 1000000, 10)
+	c0 := &gin.Context{}
+	p.HandleChargingdataInitial(c0, zzCreateReq("create", zzSupi))
+	loc := vx.HTTPHeader(c0, "Location")
+	vx.Assume(strings.HasPrefix(loc, zzRefPrefix))
+	ref := loc[len(zzRefPrefix):]
+	if vx.Choice("usedBefore", 2) == 1 {
+		u, _ := zzUsageInd("u0", 1, 1, 2)
+		zzSmallUsage(&u)
+		c := &gin.Context{}
+		p.HandleChargingdataUpdate(c, models.ChfConvergedChargingChargingDataRequest{SubscriberIdentifier: zzSupi,
+			MultipleUnitUsage: []models.ChfConvergedChargingMultipleUnitUsage{u}}, ref)
+	}
+	supi := []string{zzSupi, zzSupi2}[vx.Choice("who", 2)]
+	zzNoPanic("recharge notification panicked", func() { p.NotifyRecharge(supi, vx.Int32("rg")) })
+	vx.Assert("no lock left held after the recharge notification", vx.LocksHeld() == 0)
+	if vx.LocksHeld() == 0 {
+		c := &gin.Context{}
+		p.HandleChargingdataRelease(c, models.ChfConvergedChargingChargingDataRequest{SubscriberIdentifier: zzSupi}, ref)
+		vx.Assert("release after the recharge answered 204", vx.HTTPStatus(c) == 204)
+	}
+}
